@@ -6,8 +6,11 @@ TYPES = {0: "u8", 1: "u16", 2: "i8", 3: "i16", 5: "u10", 6: "u12", 7: "u14"}
 def flt(scn, k, nmax, ty, npx=1, polls=3, envmax=12, timeout=1500, solver="cadical"):
     return H("filter_%s_k%d_N%d_%s_px%d" % ("mean" if scn == 1 else "flush", k, nmax, TYPES[ty], npx), "harness/runtime/filter_unit.c",
              repo=[rc.RT + "frame_iterator.c", rc.RT + "throttler.c", rc.COMP], env=rc.ENV_UNIT + ["env/chan_contract.c"],
-             defines=["SCN=%d" % scn, "K=%d" % k, "NMAX=%d" % nmax, "TYPE=%d" % ty, "NPX=%d" % npx, "POLL_MAX=%d" % polls, "ENV_MAX=%d" % envmax, "TAPE_BYTES=%d" % ((nmax + 2) * 112), "WRITE_UNIT=104"],
-             cflags=rc.cflags(VERIF), unwind=nmax + 3, unwindset={"min_consumed.0": 9, "tape_at.0": 12, "main.0": (nmax // k + 2) * 112 + 2},
+             defines=["SCN=%d" % scn, "K=%d" % k, "NMAX=%d" % nmax, "TYPE=%d" % ty, "NPX=%d" % npx, "POLL_MAX=%d" % polls, "ENV_MAX=%d" % envmax, "TAPE_BYTES=%d" % ((nmax + 1) * 104), "WRITE_UNIT=104",
+                      "TAPE0_PX_T=float", "TAPE1_PX_T=%s" % ("uint8_t" if ty in (0, 2) else "uint16_t")],
+             cflags=rc.cflags(VERIF), unwind=nmax + 3, unwindset=dict([("min_consumed.0", 9), ("tape_at.0", 12), ("memcmp.0", 34)] +
+                                             [("process_data.%d" % i, nmax + 2) for i in range(3)] + [("video_filter_thread.%d" % i, max(polls, nmax) + 3) for i in range(5)] +
+                                             [("accumulate.%d" % i, npx + 2) for i in range(4)] + [("normalize.0", npx + 2)]),
              solver=solver, timeout=timeout, mem_gb=24,
              what="real video_filter_thread (k=%d) + frame_iterator + two real channels; environment writer commits <=%d %s frames with symbolic pixels, sink reader checks every emitted f32 frame against (float)S*(1/k); output ring holds one frame and starts with arbitrary bytes%s"
                   % (k, nmax, TYPES[ty], "; sink abstraction stops after the first empty map once told to stop (flush race)" if scn == 2 else ""),
@@ -21,30 +24,60 @@ def kern(k, ty, npx=1, timeout=900, solver="kissat"):
              what="arithmetic kernel: real accumulate() x k on fully symbolic %s pixels into a zeroed f32 frame, real normalize(1/k): every pixel == (float)S*(1.0f/k) (IEEE single, bit-blasted)" % TYPES[ty],
              bounds=dict(k=k, type=TYPES[ty], pixels=npx, values="full range of the type"))
 
-def sched(scn, k, nmax, **kw):
-    kw.setdefault("solver", "kissat")
+def sched(scn, k, arrivals, stop_same=1, chunk=8, **kw):
+    """arrivals: tuple of frames arriving per sleep; chunk: frames returned per read_map at most"""
+    kw.setdefault("solver", "cadical")
     kw.setdefault("envmax", 8)
-    kw.setdefault("polls", 2)
-    h = flt(scn, k, nmax, 0, **kw)
+    n = sum(arrivals)
+    kw.setdefault("polls", len(arrivals) + 1)
+    h = flt(scn, k, n, 0, **kw)
+    code = sum(g << (4 * i) for i, g in enumerate(arrivals))
+    h.defines += ["ARRIVALS=%d" % code, "STOP_SAME=%d" % stop_same, "CHAN_CHUNK=%d" % chunk]
+    h.name = "filter_%s_k%d_arr%s_s%d_c%d" % ("mean" if scn == 1 else "flush", k, "".join(map(str, arrivals)), stop_same, chunk)
+    h.what += "; input frames arrive in groups %s per sleep (fixed per instance), stop request %s; the sink's timing is symbolic" % (list(arrivals), "with the last group" if stop_same else "one sleep later")
     h.drop_flags = ["--pointer-overflow-check"]
     h.defines.append("CONCRETE_PX=1")
     h.name += "_cpx"
     h.what += "; pixel values concrete and distinct per frame (powers of two), schedules symbolic"
     return h
 
+def compositions(n, parts):
+    """all tuples of `parts` non-negative ints summing to n (first part >= 1)"""
+    if parts == 1:
+        return [(n,)]
+    out = []
+    for first in range(0, n + 1):
+        for rest in compositions(n - first, parts - 1):
+            out.append((first,) + rest)
+    return [c for c in out if c[0] >= 1]
+
+def sched_family(k, ns, max_parts, timeout=600):
+    hs = []
+    for n in ns:
+        for parts in range(1, max_parts + 1):
+            for arr in compositions(n, parts):
+                if parts > 1 and arr[-1] == 0:
+                    continue
+                for ss in (0, 1):
+                    for chunk in (1, 8):
+                        hs.append(sched(1, k, arr, ss, chunk, timeout=timeout))
+    return hs
+
 def harnesses(tier, findings):
     if tier == "probe":
-        return [sched(1, 2, 3, timeout=900), sched(2, 2, 2, timeout=900), sched(1, 2, 2, timeout=900, solver="cadical")]
+        return [sched(1, 2, (2,), timeout=600), sched(1, 2, (3,), chunk=1, timeout=600), sched(1, 2, (2, 1), timeout=600), sched(2, 2, (4,), chunk=1, timeout=600)]
     if tier == "quick":
-        return [kern(2, 0), kern(2, 1), kern(2, 3)]
-    if tier == "sched":
-        return [sched(1, 2, 4), sched(2, 2, 3)]
-    return [sched(1, 2, 5, timeout=3000), sched(1, 3, 4, timeout=3000), sched(2, 2, 4, timeout=3000), sched(2, 3, 4, timeout=3000)] + \
-           [kern(k, ty, timeout=3000) for k in (2, 3) for ty in (0, 1, 2, 3, 5, 6, 7)] + [kern(2, 1, npx=2, timeout=3000)]
+        api = rc.inst(H, VERIF, 2, 2, 1, 0, 1)
+        api.what = "hand-over at the end of an acquisition (sink told to stop only after the filter thread finished), whole-runtime coarse run: " + api.what
+        return [kern(2, 0), kern(2, 1), kern(2, 3)] + sched_family(2, (2, 3, 4), 2) + [sched(2, 2, (4,), 1, 1), sched(2, 2, (2, 1), 1, 8), sched(2, 2, (3,), 0, 8), api]
+    return [kern(k, ty, timeout=3000) for k in (2, 3) for ty in (0, 1, 2, 3, 5, 6, 7)] + [kern(2, 1, npx=2, timeout=3000)] + \
+           sched_family(2, (2, 3, 4, 5), 3) + sched_family(3, (3, 4, 6), 2) + \
+           [sched(2, 2, a, ss, c) for a in ((4,), (2, 2), (1, 3), (5,)) for ss in (0, 1) for c in (1, 8)]
 
 META = dict(
     level="model_checking",
-    bounds=dict(quick="k=2, u8, 1 pixel, N<=4 input frames (mean/count/order) and N<=3 (flush race)", thorough="k in {2,3}, u8/u16/i8/i16, up to 2 pixels, N<=5"),
+    bounds=dict(quick="kernel: k=2, u8/u16/i16, all pixel values; schedules: every arrival pattern of N in {2,3,4} input frames over <=2 sleeps x stop with/after the last group x chunking {1 frame per map, everything}, sink timing symbolic, output ring one frame deep and pre-filled with arbitrary floats",
+                thorough="kernel: k in {2,3}, all 7 integer types, 2 pixels; schedules: N<=5 over <=3 sleeps, k=3"),
     outside="k>3; more than 2 pixels per image; f32 input; shape changes inside a window; schedules needing more than POLL_MAX polls of the filter loop",
     assumptions=["environment writer/sink are abstractions of the source and sink threads justified by the source/sink unit harnesses", "boundary scheduling (B)", "float arithmetic bit-blasted by CBMC (IEEE single)"],
 )
